@@ -15,6 +15,9 @@ pub struct Exec {
     case_no: u64,
     progs: Vec<Vec<Op>>,
     events: Arc<Mutex<Vec<String>>>,
+    aborted: bool,
+    setup_entries: Vec<EntryStrongPtr>,
+    setup_nodes: Arc<Mutex<NodeIds>>,
 }
 
 /// records notifications; optionally calls back into read-only manager functions (what a user's listener may do)
@@ -34,14 +37,22 @@ impl Listener {
 impl circuitbreaker::StateChangeListener for Listener {
     fn on_transform_to_closed(&self, prev: circuitbreaker::State, rule: Arc<circuitbreaker::Rule>) {
         self.events.lock().unwrap().push(format!("{:?}>Closed:{}", prev, rule.id));
+        sched::note(9, &format!("ev={:?}>Closed:{}", prev, rule.id));
         self.cb(&rule.resource);
     }
     fn on_transform_to_open(&self, prev: circuitbreaker::State, rule: Arc<circuitbreaker::Rule>, _snapshot: Option<Arc<Snapshot>>) {
         self.events.lock().unwrap().push(format!("{:?}>Open:{}", prev, rule.id));
+        sched::note(9, &format!("ev={:?}>Open:{}", prev, rule.id));
         self.cb(&rule.resource);
     }
     fn on_transform_to_half_open(&self, prev: circuitbreaker::State, rule: Arc<circuitbreaker::Rule>) {
         self.events.lock().unwrap().push(format!("{:?}>HalfOpen:{}", prev, rule.id));
+        sched::note(9, &format!("ev={:?}>HalfOpen:{}", prev, rule.id));
+        self.cb(&rule.resource);
+    }
+    fn on_circuit_breaker_drop(&self, prev: circuitbreaker::State, rule: Arc<circuitbreaker::Rule>) {
+        self.events.lock().unwrap().push(format!("{:?}>Dropped:{}", prev, rule.id));
+        sched::note(9, &format!("ev={:?}>Dropped:{}", prev, rule.id));
         self.cb(&rule.resource);
     }
 }
@@ -51,7 +62,7 @@ impl Exec {
         crate::world::clear_all_rules();
         verif_clock::enable(T0_NS + case_no * 3_600_000_000_000);
         circuitbreaker::clear_state_change_listeners();
-        Exec { case_no, progs: Vec::new(), events: Arc::new(Mutex::new(Vec::new())) }
+        Exec { case_no, progs: Vec::new(), events: Arc::new(Mutex::new(Vec::new())), aborted: false, setup_entries: Vec::new(), setup_nodes: Arc::new(Mutex::new(NodeIds { seen: Vec::new() })) }
     }
 }
 
@@ -149,11 +160,22 @@ impl CaseExec for Exec {
             self.progs[i].push(Op { name, kv: op.kv.clone(), words });
             return "queued".into();
         }
+        if self.aborted {
+            // threads stuck in the aborted schedule still hold locks: nothing more can be observed in this process
+            return "skipped-after-abort".into();
+        }
         match op.name.as_str() {
             "clock" => format!("t={}", verif_clock::now_ns().unwrap()),
             "adv" => {
                 verif_clock::advance_ns(op.u_or("ns", 0) + op.u_or("ms", 0) * 1_000_000);
                 "ok".into()
+            }
+            // entries built / exited by the main thread before the schedule starts (e.g. to trip a breaker)
+            "sbuild" | "sexit" => {
+                let mut o = op.clone();
+                o.name = if op.name == "sbuild" { "build".into() } else { "exit".into() };
+                let ids = self.setup_nodes.clone();
+                thread_op(self.case_no, &o, &mut self.setup_entries, &ids)
             }
             "touch" => {
                 let res = res_name(self.case_no, &op.s("res"));
@@ -205,10 +227,12 @@ impl CaseExec for Exec {
                 let node_ids = Arc::new(Mutex::new(NodeIds { seen: Vec::new() }));
                 let case_no = self.case_no;
                 sched::start(n, choices, max_steps);
-                let mut handles = Vec::new();
+                // each thread reports through a shared slot; a thread stuck in an aborted schedule never reports
+                let slots: Arc<Mutex<Vec<Option<(Vec<String>, String, usize)>>>> = Arc::new(Mutex::new(vec![None; n]));
                 for (i, prog) in self.progs.iter().cloned().enumerate() {
                     let node_ids = node_ids.clone();
-                    handles.push(std::thread::spawn(move || {
+                    let slots = slots.clone();
+                    std::thread::spawn(move || {
                         let mut results: Vec<String> = Vec::new();
                         let mut entries: Vec<EntryStrongPtr> = Vec::new();
                         let r = std::panic::catch_unwind(std::panic::AssertUnwindSafe(|| {
@@ -221,29 +245,37 @@ impl CaseExec for Exec {
                         }));
                         let status = match r {
                             Ok(_) => "ok".to_string(),
-                            Err(p) => {
-                                let m = panic_msg(&p);
-                                if m.contains("verif-sched-abort") {
-                                    "aborted".to_string()
-                                } else {
-                                    format!("panic:{}", m.replace(' ', "_").replace('\n', "_"))
-                                }
-                            }
+                            Err(p) => format!("panic:{}", panic_msg(&p).replace(' ', "_").replace('\n', "_")),
                         };
                         sched::leave(i, &status);
-                        // entries still open are exited outside the schedule so that later observations are about the ops given
-                        (results, status, entries.len())
-                    }));
+                        let open = entries.len();
+                        std::mem::forget(entries);
+                        slots.lock().unwrap()[i] = Some((results, status, open));
+                    });
                 }
+                let mut aborted = false;
+                loop {
+                    if slots.lock().unwrap().iter().all(|s| s.is_some()) {
+                        break;
+                    }
+                    if sched::aborted() {
+                        // give the threads that can still finish a moment, then stop waiting
+                        std::thread::sleep(std::time::Duration::from_millis(20));
+                        aborted = true;
+                        break;
+                    }
+                    std::thread::sleep(std::time::Duration::from_micros(200));
+                }
+                self.aborted = aborted;
                 let mut res_txt = Vec::new();
                 let mut status_txt = Vec::new();
-                for (i, h) in handles.into_iter().enumerate() {
-                    match h.join() {
-                        Ok((results, status, open)) => {
+                for (i, s) in slots.lock().unwrap().iter().enumerate() {
+                    match s {
+                        Some((results, status, open)) => {
                             res_txt.push(format!("t{}:{}", i, results.join(",")));
                             status_txt.push(format!("t{}:{}:open{}", i, status, open));
                         }
-                        Err(_) => status_txt.push(format!("t{}:joinfailed", i)),
+                        None => status_txt.push(format!("t{}:stuck", i)),
                     }
                 }
                 let (log, deadlock, used) = sched::finish();
@@ -255,7 +287,7 @@ impl CaseExec for Exec {
                     status_txt.join(";"),
                     res_txt.join(";"),
                     if ev.is_empty() { "-".to_string() } else { ev },
-                    log.join(";").replace(' ', "_")
+                    log.join(";").replace(' ', "~")
                 )
             }
             "node" => {
